@@ -251,6 +251,7 @@ package claim
 // claim's secret too; a merge-patching applicator would leave a superset behind.
 //@ func claim.NewAPIConnectionPropagator
 //@ props C09
+//@ frame fresh-only
 //@ let $app = result resource.NewAPIUpdatingApplicator
 //@ site resource.NewAPIUpdatingApplicator($c)
 //@   assert [C09:claim-secret-written-through-a-replacing-applicator-of-the-given-client] $c == c
